@@ -1,6 +1,7 @@
 package invocation
 
 import (
+	"bytes"
 	"fmt"
 	"io"
 
@@ -49,29 +50,17 @@ func (t *Token) ToSealedWriter(w io.Writer, privKey crypto.PrivKey) (cid.Cid, er
 // key taken from the issuer (iss) field and calculates the CID of the
 // incoming data.
 func FromSealed(data []byte) (*Token, cid.Cid, error) {
-	tkn, err := FromDagCbor(data)
-	if err != nil {
-		return nil, cid.Undef, err
-	}
-
-	id, err := envelope.CIDFromBytes(data)
-	if err != nil {
-		return nil, cid.Undef, err
-	}
-
-	return tkn, id, nil
+	return FromSealedReader(bytes.NewReader(data))
 }
 
 // FromSealedReader is the same as Unseal but accepts an io.Reader.
 func FromSealedReader(r io.Reader) (*Token, cid.Cid, error) {
-	cidReader := envelope.NewCIDReader(r)
-
-	tkn, err := FromDagCborReader(cidReader)
+	node, id, err := envelope.DecodeSealed(r)
 	if err != nil {
 		return nil, cid.Undef, err
 	}
 
-	id, err := cidReader.CID()
+	tkn, err := FromIPLD(node)
 	if err != nil {
 		return nil, cid.Undef, err
 	}
